@@ -288,6 +288,9 @@ MUTANTS = [
             # If it's a comment line, ignore indentation.
             return None
 """),
+    ('c11-doc-prepend', 'C11', 'stone/ir/api.py',
+     """            self.doc += normalized_docstring""",
+     """            self.doc = normalized_docstring + self.doc"""),
     # ---- C03 ------------------------------------------------------------------------
     ('c03-eof-assert', 'C03', 'stone/frontend/parser.py',
      """        if token is None:
